@@ -42,11 +42,13 @@ def gen_cfg(rng, prop, tier):
     cfg = struct.gen_cfg(rng, "C02", tier, allow_big=False)
     cfg["prop"] = "C14"
     menu = rng.choice((("HNode",), ("HAny",), ("HNode", "HAny", "HMix"), ("HLight",), ("HLightDict",),
-                       ("HNodeBag",), ("HNodeNo",), ("HLightNo", "HLight"), ("HNodeEq",), ("PNode",), ("PAny",), ("PNode", "PAny")))
+                       ("HNodeBag",), ("HNodeNo",), ("HLightNo", "HLight"), ("HNodeEq",), ("PNode",), ("PAny",), ("PNode", "PAny"),
+                       ("HNode", "HSym"), ("HAny", "HSym"), ("PAny", "PSym"), ("HAny", "HNode", "HSymMix")))
     cfg["menu"] = list(menu)
     cfg["family"] = FAMILY[menu[0]]
-    cfg["classes"] = [rng.choice(menu) for _ in cfg["classes"]]
-    cfg["targets"] = [None] * len(cfg["classes"])
+    cfg["classes"] = [rng.choice(menu) if i else menu[0] for i, _ in enumerate(cfg["classes"])]
+    # symbolic links answer every attribute lookup with their target's (or its AttributeError)
+    cfg["targets"] = [rng.randrange(i) if c in struct.LINK_CLASSES else None for i, c in enumerate(cfg["classes"])]
     cfg["allow_nn"] = False
     cfg["w"]["new"] = 0
     cfg["L"] = rng.randint(4, 30)
@@ -205,8 +207,12 @@ def run(cfg, ops=None, rng=None):
     res = Result()
     world, model = struct.build_world(cfg)
     attrs = []
+    targets = cfg["targets"]
+    # (Node's repr - used in CountError messages - spells the names along the path: only all-AnyNode trees can drop them)
+    nameless_ok = all(c in ("HAny", "PAny", "HSym", "PSym", "HSymMix") for c in cfg["classes"])
     for i, node in enumerate(world.nodes):
-        a = {"name": "n%d" % i}
+        # (a link shares its target's attribute record: reads and writes go through)
+        a = attrs[targets[i]] if targets[i] is not None else {"name": "n%d" % i}
         for k, v in sorted(cfg["init_attrs"][i].items()):
             setattr(node, k, pyval(v))
             a[k] = pyval(v)
@@ -234,7 +240,9 @@ def run(cfg, ops=None, rng=None):
                 elif r < cfg["q_rate"] + cfg["a_rate"]:
                     i = rng.randrange(n)
                     k = rng.choice(cfg.get("attrs", ATTRS))
-                    if k in attrs[i] and rng.random() < 0.3:
+                    if nameless_ok and targets[i] is None and "name" in attrs[i] and rng.random() < 0.15:
+                        op = {"op": "delattr", "n": i, "k": "name"}  # an AnyNode needs no name
+                    elif k in attrs[i] and rng.random() < 0.3 and targets[i] is None:
                         op = {"op": "delattr", "n": i, "k": k}
                     else:
                         op = {"op": "setattr", "n": i, "k": k, "v": rng.choice(VALUES)}
@@ -251,7 +259,7 @@ def run(cfg, ops=None, rng=None):
                     res.bump("attr_writes")
                 continue
             if kind == "delattr":
-                if op["n"] < n and op["k"] in attrs[op["n"]] and op["k"] != "name":
+                if op["n"] < n and op["k"] in attrs[op["n"]] and targets[op["n"]] is None and (op["k"] != "name" or nameless_ok):
                     delattr(world.nodes[op["n"]], op["k"])
                     del attrs[op["n"]][op["k"]]
                     res.bump("attr_deletes")
